@@ -84,7 +84,6 @@ def parse_events(data, fragment=False):
     except expat.ExpatError as e:
         if not fragment:
             raise XMLError(str(e))
-        first_err = str(e)
     # fragment: keep the prolog, wrap the rest
     m = _PROLOG.match(data)
     cut = m.end() if m else 0
@@ -94,7 +93,7 @@ def parse_events(data, fragment=False):
     try:
         p.Parse(wrapped, True)
     except expat.ExpatError as e:
-        raise XMLError("%s (as fragment: %s)" % (first_err, e))
+        raise XMLError("%s" % e)
     out = [ev for ev in events if not (ev[0] in ("start", "end") and ev[1] == WRAP)]
     return out
 
